@@ -120,6 +120,9 @@ type Field struct {
 	// ParentIsOptionalEmbedFieldName is the Type of the embedded field.
 	// Eg MaxAge
 	ParentIsOptionalEmbedFieldName string
+	// ParentIsOptionalEmbedInner lists the nullable embedded messages between the one above and the field,
+	// outermost first (a nullable embedded message inside a nullable embedded message).
+	ParentIsOptionalEmbedInner []OptionalEmbed
 	// IsNullable represents field nullable state
 	IsNullable bool
 	// IsSensitive is field sensitive? (password, token)
@@ -235,6 +238,12 @@ func BuildField(c *FieldBuildContext) ([]*Field, error) {
 					embeddedFieldName = typeWithPackageName[stringPositionDot+1:]
 				}
 
+				if f.ParentIsOptionalEmbed {
+					// the field is already promoted from a nullable embedded message of this one
+					f.ParentIsOptionalEmbedInner = append([]OptionalEmbed{
+						{FieldName: f.ParentIsOptionalEmbedFieldName, FullType: f.ParentIsOptionalEmbedFullType},
+					}, f.ParentIsOptionalEmbedInner...)
+				}
 				f.ParentIsOptionalEmbed = true
 				f.ParentIsOptionalEmbedFullType = typeWithPackageName
 				f.ParentIsOptionalEmbedFieldName = embeddedFieldName
@@ -437,4 +446,30 @@ func (f *Field) setCustomType(c *FieldBuildContext) {
 
 	// Default suffix: package and type name without / and .
 	f.Suffix = strings.ReplaceAll(strings.ReplaceAll(c.GetCustomType(), "/", ""), ".", "")
+}
+
+// OptionalEmbed names a nullable embedded message: the field it is held in and its <package>.Type
+type OptionalEmbed struct {
+	FieldName string
+	FullType  string
+}
+
+// OptionalEmbeds returns the nullable embedded messages the field is promoted from, outermost first
+func (f *Field) OptionalEmbeds() []OptionalEmbed {
+	if !f.ParentIsOptionalEmbed {
+		return nil
+	}
+	return append([]OptionalEmbed{
+		{FieldName: f.ParentIsOptionalEmbedFieldName, FullType: f.ParentIsOptionalEmbedFullType},
+	}, f.ParentIsOptionalEmbedInner...)
+}
+
+// OptionalEmbedCond returns obj.A <op> nil <join> obj.B <op> nil for the nullable embedded messages the field
+// is promoted from ("==", "||": one of them is nil, "!=", "&&": all of them are set)
+func (f *Field) OptionalEmbedCond(op string, join string) string {
+	var c []string
+	for _, e := range f.OptionalEmbeds() {
+		c = append(c, "obj."+e.FieldName+" "+op+" nil")
+	}
+	return strings.Join(c, " "+join+" ")
 }
